@@ -106,7 +106,11 @@ def fragmented_groups(rng, ngroups, nvar):
         frags = []
         for f in range(rng.randint(1, 3)):
             fr = []
-            for t in rng.sample(tracks, rng.randint(1, ntr)):
+            chosen = rng.sample(tracks, rng.randint(1, ntr))
+            # several track fragments of the same track inside one movie fragment (legal: zero or more traf per track)
+            while rng.random() < 0.3 and len(chosen) < 4:
+                chosen.insert(rng.randint(0, len(chosen)), rng.choice(chosen))
+            for t in chosen:
                 k = rng.choice([1, 2, 3])
                 per = rng.random() < 0.5
                 tf = {"track_id": t["id"], "base": rng.choice(bases), "tfhd_dur": rng.choice([None, 20]), "tfdt": clock[t["id"]], "tfdt_v": rng.choice([0, 1]),
